@@ -78,6 +78,14 @@ type c17Sim struct {
 	fc     types.V2FileContract
 	prices rhp4.HostPrices
 	calls  int
+	fixedN uint64
+}
+
+// an append of exactly n sectors (directed scenarios)
+func (s *c17Sim) appendExactly(n uint64) {
+	s.fixedN = n
+	s.revise(0)
+	s.fixedN = 0
 }
 
 // one constructor call on the Go side and in the model; returns the new contract when the call succeeded
@@ -94,6 +102,9 @@ func (s *c17Sim) revise(kind int) {
 		n = 1 + r.rng.Uint64N(8)
 		if r.rng.IntN(8) == 0 {
 			n = 1 + r.rng.Uint64N(rhp4.MaxSectorBatchSize)
+		}
+		if s.fixedN != 0 {
+			n = s.fixedN
 		}
 	case 1:
 		if sectors == 0 {
@@ -387,6 +398,34 @@ func c17Sequences(r *Run) {
 			w = append(w, "0", hc(mx))
 		}
 		r.emit(false, "minmax", "c17.minmax", append(priceToks(prices), hc(x)), w)
+	}
+	// collateral depletion: appends that each risk 35-65% of the total collateral, so that after one or two of them the
+	// remaining MissedHostValue is below the next request while the request is still below TotalCollateral; the
+	// constructor must then fail cleanly (insufficient host collateral), never panic
+	for it := 0; it < r.pick(40, 1500); it++ {
+		tip := uint64(10 + r.rng.IntN(1000))
+		prices := r.c17Prices(tip)
+		nsec := 1 + r.rng.Uint64N(4)
+		ph := tip + 1 + uint64(r.rng.IntN(300))
+		collateral := types.NewCurrency64(1 << uint(30+r.rng.IntN(30))).Mul64(1 + r.rng.Uint64N(1000))
+		// per-byte-block collateral price so that one append of nsec sectors until expiration risks pct% of the total
+		pct := uint64(35 + r.rng.IntN(31))
+		duration := ph + 144 - tip // ExpirationHeight - TipHeight of the contract NewContract builds
+		prices.Collateral = collateral.Mul64(pct).Div64(100).Div64(rhp4.SectorSize).Div64(nsec).Div64(duration)
+		prices.StoragePrice = types.NewCurrency64(r.rng.Uint64N(10))
+		prices.IngressPrice = types.NewCurrency64(r.rng.Uint64N(10))
+		allowance := types.NewCurrency64(1 << 62).Mul64(1 << 20) // never the limiting side
+		var fc types.V2FileContract
+		if pan, _ := try(func() {
+			fc, _ = rhp4.NewContract(prices, rhp4.RPCFormContractParams{Allowance: allowance, Collateral: collateral, ProofHeight: ph}, types.PublicKey{1}, types.Address{2})
+		}); pan {
+			continue
+		}
+		s := &c17Sim{r: r, fc: fc, prices: prices}
+		for k := 0; k < 4; k++ {
+			s.appendExactly(nsec)
+		}
+		r.count("oracle-collateral-depletion")
 	}
 	// contracts that are consensus-valid but were not produced by the constructors (the host's value below the
 	// total collateral): model and implementation must agree on where they panic
